@@ -78,16 +78,23 @@ func deniableJobs(c *vf.Check) []func() {
 		for ti, t := range trees {
 			for bad := -1; bad < nn; bad++ {
 				nn, ti, t, bad := nn, ti, t, bad
-				jobs = append(jobs, func() { runDeniable(c, nn, ti, t, bad) })
+				jobs = append(jobs, func() { runDeniable(c, nn, ti, t, bad, false) })
+				if nn == 2 && bad < 1 {
+					// plus a verify-only participant: its own prover does nothing, it checks the proofs of the others
+					jobs = append(jobs, func() { runDeniable(c, nn, ti, t, bad, true) })
+				}
 			}
 		}
 	}
 	return jobs
 }
 
-func runDeniable(c *vf.Check, nn, ti int, t tree, bad int) {
+func runDeniable(c *vf.Check, nn, ti int, t tree, bad int, auditor bool) {
 	pk := "C14/deniable"
 	id := fmt.Sprintf("deniable clique of %d, tree #%d %s, falsified participant %d", nn, ti, t, bad)
+	if auditor {
+		id += ", plus a verify-only participant"
+	}
 	c.Case(id, pk, func(x *vf.Ctx) {
 		w := newWorld("ed25519")
 		b := t.build()
@@ -147,9 +154,40 @@ func runDeniable(c *vf.Check, nn, ti int, t tree, bad int) {
 			for j := 0; j < nn; j++ {
 				vrfs[j] = b.pred.Verifier(w.s, pvs[j])
 			}
+			if auditor {
+				vrfs = append(vrfs, func(proof.VerifierContext) error { return nil })
+			}
 			protos[i] = proof.DeniableProver(w.s, i, b.pred.Prover(w.s, sv, pvs[i], choice), vrfs)
 		}
+		if auditor {
+			vrfs := make([]proof.Verifier, nn)
+			for j := 0; j < nn; j++ {
+				vrfs[j] = b.pred.Verifier(w.s, pvs[j])
+			}
+			vrfs = append(vrfs, func(proof.VerifierContext) error { return nil })
+			protos = append(protos, proof.DeniableProver(w.s, nn, func(proof.ProverContext) error { return nil }, vrfs))
+		}
 		res := runClique(w.s, protos)
+		if auditor {
+			// the verify-only participant's verdicts on the others
+			if len(res) != nn+1 || len(res[nn]) != nn+1 {
+				x.Failf(pk+"/result-shape", "%s: the verify-only participant returns %d results", id, len(res[len(res)-1]))
+				return
+			}
+			for j := 0; j < nn; j++ {
+				if j == bad {
+					if res[nn][j] == nil && !stillSatisfiable(w, b, truth, choiceIdx, b.repTerms[b.reps[choiceIdx][0]][0][0]) {
+						x.Failf(pk+"/false-statement-accepted", "%s: the verify-only participant accepts the proof of participant %d, whose secret was falsified", id, j)
+					}
+				} else if res[nn][j] != nil {
+					x.Failf(pk+"/honest-rejected", "%s: the verify-only participant reports the honest proof of participant %d as failed: %v", id, j, res[nn][j])
+				}
+			}
+			for i := 0; i < nn; i++ {
+				res[i] = res[i][:nn]
+			}
+			res = res[:nn]
+		}
 		c.Eval(nn * nn)
 		for i := 0; i < nn; i++ {
 			if len(res[i]) != nn {
